@@ -133,6 +133,11 @@ def run(run):
                     arg = name if gha else target
                     if os.path.exists(target):
                         os.remove(target)
+                    if case % 2 == 0:
+                        # the report path already holds a (much longer) report of an earlier run
+                        with open(target, "w") as f_:
+                            json.dump([dict(query="FROM x AS y SELECT y", rule=dict(id="earlier/run-%d" % j, description="left over " * 20), result=dict(output=[["old"]] * 5, result_set=[])) for j in range(300)], f_, indent=1)
+                        stats["reports_over_an_earlier_one"] += 1
                     rc, so, se = C.cli(["ci", "--project", proj.dir, "--ruleset", rdir, "--output", fmt, "--output-file", arg, "--disable-metrics"], env=env, cwd=tmp)
                     stats["ci_runs"] += 1
                     if rc != 0 or not os.path.exists(target):
